@@ -39,6 +39,10 @@ def run_pairs(ctx):
         dict(mode="shift", dev="ring", field=0.6, shift=(1.0, 1.0), steps=100, warm=30),
         dict(mode="shift", dev="tee", field=0.2, current=4.0, shift=(0.4, -0.6), steps=100, warm=30),
         dict(mode="shift", dev="cross", field=0.3, current=3.0, shift=(0.1, 0.7), steps=80, warm=20, k=7),
+        # coherence length != 1 length unit: the gauge phase is computed from SI constants and the REQUESTED xi (fvops.physical_gauge_phase)
+        dict(mode="shift", dev="film", xi=0.5, field=0.3, shift=(0.15, -0.09), steps=80, warm=20),
+        dict(mode="shift", dev="bar", xi=2.0, field=0.1, current=2.0, shift=(0.1, 0.2), steps=80, warm=20, dt=2.0 ** -9),
+        dict(mode="translate", dev="barhole", xi=0.5, field=0.3, current=2.0, offset=(1.5, -0.75), steps=60, warm=10),
         # time-dependent applied potential (field ramped over many steps; the link variables are refreshed during the run)
         dict(mode="shift", dev="film", field=0.0, ramp=(0.0, 0.1, 2.0), shift=(1.0, 1.0), steps=128, warm=0, k=8),
         dict(mode="shift", dev="bar", field=0.0, current=2.0, ramp=(0.05, 0.15, 3.0), shift=(1.2, -0.8), steps=160, warm=10, k=16),
@@ -61,6 +65,10 @@ def run_pairs(ctx):
                 a.update(mode="translate", offset=(rnd.randint(-64, 64) / 8, rnd.randint(-64, 64) / 8))
             else:
                 a.update(mode="shift", shift=(round(rnd.uniform(-1, 1), 3), round(rnd.uniform(-1, 1), 3)))
+            if n % 5 in (1, 3):
+                a["xi"] = rnd.choice([0.5, 2.0, 1.5])
+                if a["xi"] > 1:      # finer mesh in units of xi and a smaller Bc2: smaller fixed step, field below Bc2
+                    a.update(dt=2.0 ** -9, field=min(a["field"], 0.3 / a["xi"] ** 2))
             if n % 3 == 1:
                 a.update(ramp=(round(rnd.uniform(0.0, 0.1), 3), round(rnd.uniform(0.1, 0.5), 3), rnd.choice([0.5, 1.0, 2.0, 3.0])), field=0.0)
             if n % 3 == 0:
@@ -78,8 +86,21 @@ def run_pairs(ctx):
 REST_PAIR = dict(mode="shift", dev="film", field=0.0, shift=(0.5, 0.3), steps=12, warm=0, k=4, screening=True, screening_tol=1e-3)
 
 
+# Open known finding of the unchanged tree (same root as the open C17 finding: rounding noise amplified by large adaptive steps):
+# the film of harness.devices ("film": box(5, 3, points=48), max_edge_length 0.8, xi=1, lambda=2, d=0.1) in the pure gauge
+# A = c = (0.3, -0.2) mT um, psi_0 = exp(i (2 pi/Phi_0) c.r), zero field, no screening, DEFAULT adaptive stepping (dt_init=2^-6,
+# dt_max=0.1), solve_time=10: max|Js| grows to ~3 and ||psi|-1| to ~0.08 by t ~ 2.7 while the twin A = 0, psi = 1 stays exactly at
+# rest.  With dt_max=0.02 or a fixed step both stay at rest (1e-14).  It is the stability limit of the scheme, recorded, not repaired.
+# The pair is run in both tiers; it MUST still differ (else the finding is stale: machinery failure).
+# Violation key: "C04/runs:gauge-adaptive-amplification/film/c=(0.3, -0.2)/dt_max=0.1:<first observation that differs>"
+AMPLIFICATION_LABEL = "gauge-adaptive-amplification/film/c=(0.3, -0.2)/dt_max=0.1"
+AMPLIFICATION_PAIR = dict(mode="shift", dev="film", field=0.0, shift=(0.3, -0.2), steps=640, warm=0, k=20, adaptive=True, label=AMPLIFICATION_LABEL)
+
+
 def describe(a):
-    return "%s/%s/B=%s/I=%s/%s%s" % (a["mode"], a["dev"], ("ramp%s" % (a["ramp"],)) if a.get("ramp") else a["field"], a.get("current", "-"),
+    if a.get("label"):
+        return a["label"]
+    return "%s/%s%s/B=%s/I=%s/%s%s" % (a["mode"], a["dev"], ("/xi=%s" % a["xi"]) if a.get("xi") else "", ("ramp%s" % (a["ramp"],)) if a.get("ramp") else a["field"], a.get("current", "-"),
                                     ("offset=%s" % (a["offset"],)) if a["mode"] == "translate" else ("c=%s" % (a["shift"],)),
                                     "/screening tol=%g" % a["screening_tol"] if a.get("screening") else "")
 
@@ -108,25 +129,28 @@ def run(ctx):
     jobs = []
     for i in insts[: (170 if ctx.quick else 5000)]:
         jobs.append(("call", dict(module="harness.fvops", func="replay_exact",
-                                  args=dict(mi=i["mi"], pat=i["pat"], geo=i["geo"], q=i["q"], mesh=i["mesh"], chi=i["chi"],
+                                  args=dict(profile="gauge", mi=i["mi"], pat=i["pat"], geo=i["geo"], q=i["q"], mesh=i["mesh"], chi=i["chi"],
                                             heavy=False, seed=rnd.randint(0, 10 ** 6), label=i["name"]))))
     for k in range(30 if ctx.quick else 400):
         jobs.append(("call", dict(module="harness.fvops", func="replay_exact",
-                                  args=fvops.random_instance(rnd, rnd.choice(sorted(fvops.TOPOLOGIES))))))
-    jobs.append(("call", dict(module="harness.fvops", func="replay_exact", args=fvops.lattice_instance(rnd, 4, 3))))
+                                  args=dict(fvops.random_instance(rnd, rnd.choice(sorted(fvops.TOPOLOGIES))), profile="gauge"))))
+    jobs.append(("call", dict(module="harness.fvops", func="replay_exact", args=dict(fvops.lattice_instance(rnd, 4, 3), profile="gauge"))))
     nexact = len(jobs)
     fm = fvops.float_meshes(ctx)
     for m in (fm[:5] + fm[6:7] if ctx.quick else fm):
         jobs.append(("call", dict(module="harness.fvops", func="float_trace", args=dict(m, nA=3))))
     nfloat = len(jobs) - nexact
     pairs = run_pairs(ctx)
+    pairs.append(AMPLIFICATION_PAIR)
+    if not {0.5, 2.0} <= {a.get("xi") for a in pairs if a["mode"] == "shift"}:
+        raise core.MachineryFailure("C04: no shift pair on a device with xi = 0.5 and xi = 2 length units (vacuous physical gauge phase)")
     if any(f.get("status") == "open" and "B=0.0" in f.get("key", "") and "screening" in f.get("key", "") for f in ctx.findings):
         pairs.append(REST_PAIR)
     for a in pairs:
         jobs.append(("call", dict(module="harness.fvops", func="gauge_run_pair", args=a)))
     control = dict(mode="shift", dev="bar", field=0.4, current=3.0, shift=(0.25, 0.4), steps=40, warm=30, break_seed=True)
     jobs.append(("call", dict(module="harness.fvops", func="gauge_run_pair", args=control)))
-    res = rf.replay_all(ctx, jobs)
+    res = rf.replay_all(ctx, jobs, nproc=8 if ctx.quick else None)
     nrefused = sum(1 for t in res[nexact: nexact + nfloat] if t["kind"] == "refused")
     res = [t for k, t in enumerate(res) if not (nexact <= k < nexact + nfloat and t["kind"] == "refused")]
     nfloat -= nrefused
@@ -172,6 +196,12 @@ def run(ctx):
                                  **({"screening_iterations": rr["info"]["screening_iterations"]["A"]} if a.get("screening") else {}))
                             for a, rr in zip(pairs, runs)]
     acct = fvops.validate_twin(ctx, tw, "C04/runs")
+    # the open known finding must still reproduce: the adaptive pure-gauge pair still differs
+    namp = next(n for n, t in enumerate(tw) if t["label"] == AMPLIFICATION_LABEL)
+    if namp in acct:
+        raise core.MachineryFailure("C04: the adaptive pure-gauge pair no longer differs from its A = 0 twin -- the known finding "
+                                    f"'C04/runs:{AMPLIFICATION_LABEL}*' is stale (remove the entry and AMPLIFICATION_PAIR)")
+    acct = {n for n in acct if n != namp}
     # canaries: one observation off by more than the tolerance; and a pair that is NOT gauge equivalent (no phase factor in the seed)
     ctl_trace = {"tol": TOL, "minruns": 2, "ev": ctl["ev"]}
     if acct:
